@@ -383,12 +383,23 @@ Definition gconsistent (s : gstate) (l : glabel) : Prop :=
       forall si, get (ginner s) p = Some si -> consistent (exec_an p (get (res (gtop s)))) si e
   end.
 
+(* The outside-world hypothesis of the result theorems: everything a package computes depends on the other
+   packages only through the results of its dependencies; an analyzer depends on the other analyzers of the
+   package only through the results of the analyzers it requires. *)
+Definition results_local : Prop :=
+  (forall p m m', (forall d, In d (deps (gtopd GG) p) -> m d = m' d) -> forall a r, exec_an p m a r = exec_an p m' a r) /\
+  (forall p m a r r', (forall d, In d (deps (ginnerd GG p) a) -> r d = r' d) -> exec_an p m a r = exec_an p m a r') /\
+  (forall p m m', (forall d, In d (deps (gtopd GG) p) -> m d = m' d) -> need p m = need p m') /\
+  (forall p m m', (forall d, In d (deps (gtopd GG) p) -> m d = m' d) -> fout p m = fout p m') /\
+  (forall p m m' r r', (forall d, In d (deps (gtopd GG) p) -> m d = m' d) ->
+     (forall a, In a (nodes (ginnerd GG p)) -> r a = r' a) -> fin p m r = fin p m' r').
+
 End Global.
 
 Arguments mkg {Rp Ra}. Arguments gtop {Rp Ra}. Arguments ginner {Rp Ra}. Arguments gfree {Rp Ra}. Arguments gover {Rp Ra}.
 Arguments GTop {Rp Ra}. Arguments GInit {Rp Ra}. Arguments GIn {Rp Ra}.
 Arguments ginit {Rp Ra}. Arguments gstep {Rp Ra}. Arguments gfinal {Rp Ra}. Arguments running {Rp Ra}. Arguments inner_done {Rp Ra}.
-Arguments gconsistent {Rp Ra}. Arguments exec_top {Rp Ra}.
+Arguments gconsistent {Rp Ra}. Arguments exec_top {Rp Ra}. Arguments results_local {Rp Ra}.
 
 (* ------------------------------------------------------------------------------------------------ *)
 (* The transition relation as a checker for recorded traces                                         *)
